@@ -12,6 +12,7 @@ import (
 	"hash/fnv"
 	"os"
 	"runtime"
+	"runtime/debug"
 	"strconv"
 	"strings"
 	"syscall"
@@ -202,6 +203,12 @@ func main() {
 		lim := uint64(3 << 30) // generous for the runtime + parser tables (< 1 GiB), small enough that an allocation bomb fails at once
 		_ = syscall.Setrlimit(syscall.RLIMIT_AS, &syscall.Rlimit{Cur: lim, Max: lim})
 	}
+	// The other host resource a single call can exhaust: goroutine stack. The
+	// runtime's own limit is 1 GB, which unbounded recursion reaches only after
+	// minutes and megabytes of input; 64 MB is far beyond what any bounded
+	// recursion of the library needs and lets a few hundred KB of nesting show
+	// whether recursion is bounded at all.
+	debug.SetMaxStack(64 << 20)
 	in := bufio.NewReaderSize(os.Stdin, 1<<20)
 	for {
 		line, err := in.ReadBytes('\n')
